@@ -116,13 +116,14 @@ var crdtCodecs = []int{0, 1}
 
 func genCfg(withSync bool) sim.GenConfig {
 	return sim.GenConfig{
-		MaxReplicas: ev.Scale(4, 5),
-		MaxOps:      ev.Scale(36, 90),
-		MinOps:      3,
-		Codecs:      crdtCodecs,
-		WithSync:    withSync,
-		LargeOneIn:  ev.Scale(128, 96),
-		WideOneIn:   ev.Scale(64, 48),
+		MaxReplicas:     ev.Scale(4, 5),
+		MaxOps:          ev.Scale(36, 90),
+		MinOps:          3,
+		Codecs:          crdtCodecs,
+		WithSync:        withSync,
+		LargeOneIn:      ev.Scale(128, 96),
+		WideOneIn:       ev.Scale(64, 48),
+		SharedOptsOneIn: 5,
 	}
 }
 
